@@ -271,7 +271,8 @@ func run(c Case) ev.Verdict {
 	base := runtime.NumGoroutine()
 
 	v := run1(c)
-	if !v.OK || !c.RealTime {
+	if !v.OK || !c.RealTime || v.Infeasible {
+		// (an abandoned scenario never reached its Close: nothing to account for)
 		return v
 	}
 
